@@ -37,9 +37,15 @@ def ev(node, env):
     if isinstance(node, ast.Constant):
         return node.value
     if isinstance(node, ast.Name):
-        if node.id in env:
+        try:
             return env[node.id]
-        raise CantEval(node.id)
+        except KeyError:
+            raise CantEval(node.id)
+    if isinstance(node, ast.Attribute):
+        base = ev(node.value, env)
+        if isinstance(base, Record) and node.attr in base.fields:
+            return base.fields[node.attr]
+        raise CantEval(norm(node))
     if isinstance(node, (ast.Tuple, ast.List)):
         out = []
         for e in node.elts:
@@ -87,8 +93,93 @@ def ev(node, env):
         nm = (call_name(node) or "").split(".")[-1]
         if nm in FUNCS:
             return FUNCS[nm](*[ev(a, env) for a in node.args])
+        module = getattr(env, "module", None)
+        if module is not None and isinstance(node.func, ast.Name):
+            # a namedtuple class of the module: a record of its fields
+            cv = module.const(node.func.id)
+            if isinstance(cv, ast.Call) and \
+                    (call_name(cv) or "").split(".")[-1] == "namedtuple" \
+                    and len(cv.args) >= 2:
+                try:
+                    names = ast.literal_eval(cv.args[1])
+                except (ValueError, SyntaxError):
+                    raise CantEval(norm(node))
+                if isinstance(names, str):
+                    names = names.replace(",", " ").split()
+                vals = {}
+                for k, a in zip(names, node.args):
+                    vals[k] = ev(a, env)
+                for k in node.keywords:
+                    vals[k.arg] = ev(k.value, env)
+                if set(vals) != set(names):
+                    raise CantEval(norm(node))
+                return Record(vals)
+            # a straight-line helper of the module
+            h = module.functions.get(node.func.id)
+            if h is not None:
+                from .dataflow import simple_return
+                sr = simple_return(h.node)
+                if sr is None:
+                    raise CantEval("helper %s" % node.func.id)
+                params, ret, _ = sr
+                e2 = LazyEnv(module, None, {})
+                for k, v in env.base_items():
+                    e2[k] = v
+                for p_, a in zip(params, node.args):
+                    e2[p_] = ev(a, env)
+                for k in node.keywords:
+                    e2[k.arg] = ev(k.value, env)
+                return ev(ret, e2)
         raise CantEval(norm(node))
     raise CantEval(norm(node))
+
+
+class Record:
+    """Value of a namedtuple-like record: a mapping of field names."""
+
+    def __init__(self, fields):
+        self.fields = fields
+
+    def __eq__(self, other):
+        return isinstance(other, Record) and self.fields == other.fields
+
+    def __iter__(self):
+        return iter(self.fields.values())
+
+    def __getitem__(self, i):
+        return list(self.fields.values())[i]
+
+
+class LazyEnv(dict):
+    """Environment that evaluates a local name from its single definition
+    the first time it is needed."""
+
+    def __init__(self, module, defs, init):
+        super().__init__(init)
+        self.module = module
+        self.defs = defs or {}
+        self._base = dict(init)
+        self._busy = set()
+
+    def base_items(self):
+        return self._base.items()
+
+    def __missing__(self, name):
+        ds = [d for d in self.defs.get(name, []) if d.kind != "param"]
+        if len(ds) != 1 or ds[0].value is None or ds[0].elem or \
+                ds[0].kind != "assign" or name in self._busy:
+            raise KeyError(name)
+        self._busy.add(name)
+        try:
+            v = ev(ds[0].value, self)
+            if ds[0].index is not None:
+                v = tuple(v)[ds[0].index]
+        except CantEval:
+            raise KeyError(name)
+        finally:
+            self._busy.discard(name)
+        self[name] = v
+        return v
 
 
 def moveaxis(axes, source, dest):
@@ -108,6 +199,38 @@ def transpose(axes, perm):
     if sorted(perm) != list(range(len(axes))):
         raise CantEval("transpose axes are not a permutation")
     return [axes[i] for i in perm]
+
+
+def _crs_labels(expr, defs):
+    """Labels (COL, ROW, SLC) of a 3-tuple of input-order quantities, read
+    off the names its elements are built from; None if not such a tuple."""
+    if isinstance(expr, ast.Name):
+        ds = [d for d in defs.get(expr.id, []) if d.kind == "assign"
+              and d.index is None and d.value is not None]
+        if len(ds) != 1:
+            return None
+        expr = ds[0].value
+    if not isinstance(expr, (ast.Tuple, ast.List)) or len(expr.elts) != 3:
+        return None
+    labs = []
+    for e in expr.elts:
+        found = set()
+        for n in ast.walk(e):
+            if isinstance(n, ast.Name):
+                low = n.id.lower()
+                if low.startswith("column") or low.startswith("col_"):
+                    found.add("COL")
+                elif low.startswith("row"):
+                    found.add("ROW")
+                elif "slice" in low and not low.startswith(("np", "numpy")):
+                    found.add("SLC")
+        labs.append(found.pop() if len(found) == 1 else None)
+    if labs.count(None) == 1 and len(set(labs) - {None}) == 2:
+        missing = ({"COL", "ROW", "SLC"} - set(labs)).pop()
+        labs[labs.index(None)] = missing
+    if None in labs or len(set(labs)) != 3:
+        return None
+    return tuple(labs)
 
 
 def orientation_semantics(repo, col):
@@ -134,8 +257,7 @@ def orientation_semantics(repo, col):
     def def_of(name):
         ds = [d.value for d in defs.get(name, []) if d.value is not None]
         return ds[0] if len(ds) == 1 else None
-    perm_def = def_of("input_axis_permutation")
-    inv_def = def_of("input_axis_inversions")
+    perm_def = inv_def = True     # evaluated on demand through LazyEnv
     # the statements that re-orient `block`, in source order
     steps = []
     slice_step = None
@@ -173,12 +295,61 @@ def orientation_semantics(repo, col):
              for p in itertools.permutations(t)]
     n = 0
     bad = []
+    # per-axis vectors moved between volume order (X, Y, Z) and input order
+    # (column, row, slice): every permute(...) of the function, evaluated on
+    # axis labels
+    label_seed = {}
+    for name, ds in defs.items():
+        for d in ds:
+            if d.value is not None and d.kind == "assign" and \
+                    d.index is None and isinstance(d.value, ast.Subscript):
+                t = norm(d.value)
+                if t.endswith("['size']") or "['chunk_sizes'][" in t:
+                    label_seed[name] = ("X", "Y", "Z")
+        for pre, lab in (("column_", "COL"), ("row_", "ROW"),
+                         ("slice_", "SLC")):
+            if name.startswith(pre) and all(d.kind != "param" for d in ds):
+                label_seed[name] = lab
+    perm_calls = [c for c in walk_local(fn.node) if isinstance(c, ast.Call)
+                  and (call_name(c) or "").split(".")[-1] == "permute"
+                  and len(c.args) == 2]
+    vec_bad = {id(c): [] for c in perm_calls}
+    vec_und = {id(c): None for c in perm_calls}
     for code in codes:
-        env = dict(tables)
-        env["input_orientation"] = code
+        init = dict(tables)
+        init["input_orientation"] = code
+        init.update(label_seed)
+        env = LazyEnv(m, defs, init)
+        for c in perm_calls:
+            try:
+                try:
+                    src = tuple(ev(c.args[0], env))
+                except CantEval:
+                    src = _crs_labels(c.args[0], defs)
+                    if src is None:
+                        raise
+                res = FUNCS["permute"](src, ev(c.args[1], env))
+            except CantEval as exc:
+                vec_und[id(c)] = str(exc)
+                continue
+            except Exception as exc:
+                vec_und[id(c)] = repr(exc)
+                continue
+            if set(src) == {"X", "Y", "Z"}:
+                want_v = tuple(axis_of[ch] for ch in code)
+            elif set(src) == {"COL", "ROW", "SLC"}:
+                want_v = tuple(
+                    ("COL", "ROW", "SLC")[[axis_of[ch] for ch in code].index(a)]
+                    for a in ("X", "Y", "Z"))
+            else:
+                vec_und[id(c)] = "operand labels %r" % (src,)
+                continue
+            if res != want_v:
+                vec_bad[id(c)].append((code, res, want_v))
+        init = dict(tables)
+        init["input_orientation"] = code
+        env = LazyEnv(m, defs, init)
         try:
-            env["input_axis_permutation"] = ev(perm_def, env)
-            env["input_axis_inversions"] = ev(inv_def, env)
             axes = None
             for kind, v in steps:
                 if kind == "start":
@@ -231,4 +402,21 @@ def orientation_semantics(repo, col):
                 "" if ok else "for orientation %s the block ends up as %s "
                 "(position = C,Z,Y,X; sign -1 = reversed); the code "
                 "designates %s" % (code, axes, want))
+    for c in perm_calls:
+        b = vec_bad[id(c)]
+        if b:
+            code, res, want_v = b[0]
+            col.add(rule + ".vector", fn, norm(c)[:70], False,
+                    "for %d of the 48 orientation codes (e.g. %s) this "
+                    "re-ordering yields %s where the code designates %s: the "
+                    "per-axis values are attached to the wrong axes"
+                    % (len(b), code, "/".join(res), "/".join(want_v)), node=c)
+        elif vec_und[id(c)] is not None:
+            col.add(rule + ".vector", fn, norm(c)[:70], True,
+                    "cannot evaluate: %s" % vec_und[id(c)], node=c,
+                    undecided=True)
+        else:
+            col.add(rule + ".vector", fn, norm(c)[:70], True,
+                    "agrees with the orientation code for all 48 codes",
+                    node=c)
     return n
